@@ -47,7 +47,9 @@ var c18Ifaces = []simnet.IfaceSpec{
 		netip.MustParsePrefix("fe80::10/64"), netip.MustParsePrefix("fec0::10/64"), netip.MustParsePrefix("::10.0.1.10/96"),
 		// site-local is fec0::/10, not only fec0::/16; link-local is fe80::/10
 		netip.MustParsePrefix("fed0::10/64"), netip.MustParsePrefix("feff:1::10/64"), netip.MustParsePrefix("febf::10/64")}},
-	{Name: "lo", Flags: net.FlagUp | net.FlagLoopback, Addrs: []netip.Prefix{netip.MustParsePrefix("127.0.0.1/8")}},
+	{Name: "lo", Flags: net.FlagUp | net.FlagLoopback, Addrs: []netip.Prefix{netip.MustParsePrefix("127.0.0.1/8"),
+		// a routable address on the loopback interface (a service address bound to lo): it follows the interface
+		netip.MustParsePrefix("10.99.0.1/32")}},
 	{Name: "eth1", Flags: net.FlagBroadcast, Addrs: []netip.Prefix{netip.MustParsePrefix("10.0.7.7/24")}}, // down
 	{Name: "eth2", Addrs: []netip.Prefix{netip.MustParsePrefix("10.0.1.11/24"), netip.MustParsePrefix("2001:db8::11/64")}},
 }
